@@ -227,7 +227,7 @@ Section Inv.
         destruct (put_one s c d p) as [s' [| | | | |]]; exact HI'.
       + rewrite Hnone by reflexivity. exact HI.
     - unfold st_put. cbn [fst snd]. destruct (cid_parse c) as [p|] eqn:Ep.
-      + rewrite (inv_closed _ _ HI). apply put_one_inv; assumption.
+      + rewrite (inv_closed _ _ HI), (inv_fin _ _ HI). apply put_one_inv; assumption.
       + rewrite Hnone by reflexivity. exact HI.
   Qed.
 
@@ -513,7 +513,7 @@ Section Inv.
           unfold bs_close in Ec.
           destruct (negb (w_v1 (ws_opts s1)) && negb (ws_finalized s1)); [injection Ec as <- _; exact Hf1|].
           destruct (ws_closed s1); injection Ec as <- _; exact Hf1.
-      + unfold st_finalize. rewrite Hopts, Hcl.
+      + unfold st_finalize. rewrite Hopts, Hcl, Hfin.
         destruct (w_v1 o) eqn:Ev; [exact Hfile|].
         apply store_finalize_file; assumption.
   Qed.
